@@ -32,6 +32,9 @@ extern int g_header, g_endata, g_malformed, g_nrec;
 extern int g_c1_seen, g_c1_kind, g_c1_row, g_c2_seen, g_c2_kind, g_c2_row;   /* the record(s) naming column g_c1 / g_c2 */
 extern int g_r_seen, g_r_kind, g_r_col;                                       /* the record(s) naming row g_r */
 
+/* writeBasisFile (SoPlexBase): pending field width / one-letter name prefix of the ofstream stub */
+extern int g_width, g_pend_letter, g_name_split, g_open_arg_ok, g_delegated, g_BASIC, g_ONUP, g_BOXED;
+extern const char* gp_filename; extern int* gp_rt;
 /* ---- reader ---- */
 extern int g_str_form, g_str_lit, g_str_val;    /* what std::stringstream::str() last returned: form 2 = "<one literal><one int>" */
 extern int g_regc_cnt, g_regc_form, g_regc_lit, g_regc_val;   /* the default name registered at position g_c1 of the column name set */
